@@ -71,6 +71,9 @@ class Engine(ExprMixin, ExprMixin2, StmtMixin, LoopMixin, CallMixin, CompMixin, 
         self.enums = {}            # enum class -> member names (closed world)
         self.heap_axioms = []      # callables(engine, state) -> [z3 facts about the initial heap]
         self.auto_declare_fields()
+        self.auto_globals = set()
+        self._gdecl_cache = {}
+        self.auto_declare_globals()
         self.ast_field_names = {f for fs in repo.live["ast_fields"].values() for f in fs} | {"lineno", "col_offset", "end_lineno", "end_col_offset", "kind", "type_comment"}
 
     def auto_declare_fields(self):
@@ -103,6 +106,37 @@ class Engine(ExprMixin, ExprMixin2, StmtMixin, LoopMixin, CallMixin, CompMixin, 
                                 ty = ann_map[ann]
                         self.fields.setdefault(cname, {})[tgt.attr] = ty
                         self.auto_fields.append((cname, tgt.attr, ty))
+
+    def auto_declare_globals(self):
+        """a module-level name some function re-binds through a `global` statement is mutable state of the module object: declare it as a field
+        (type `val` unless the sidecar types it), so that reads go to the heap (not to the literal the module assigns at import time) and writes
+        are heap writes the frame check sees"""
+        for q, fn in self.repo.qual.items():
+            mod = q.split(".")[0]
+            for n in ast.walk(fn):
+                if isinstance(n, ast.Global):
+                    for name in n.names:
+                        fs = self.fields.setdefault("module:" + mod, {})
+                        if name not in fs:
+                            fs[name] = "val"
+                            self.auto_globals.add(f"module:{mod}.{name}")
+
+    def global_decls(self):
+        """names the function under execution declares `global` (its own body, not nested defs)"""
+        key = self.cur_fn
+        if key not in self._gdecl_cache:
+            fn = self.repo.qual.get(key.split("#")[0].split("@")[0])
+            names = set()
+            if fn is not None:
+                todo = list(fn.body)
+                while todo:
+                    n = todo.pop()
+                    if isinstance(n, ast.Global):
+                        names |= set(n.names)
+                    if not isinstance(n, (ast.FunctionDef, ast.AsyncFunctionDef, ast.Lambda, ast.ClassDef)):
+                        todo += list(ast.iter_child_nodes(n))
+            self._gdecl_cache[key] = names
+        return self._gdecl_cache[key]
 
     # ---- verifying one function -----------------------------------------------------------------------------------------
     def resolve_fn(self, c):
@@ -169,8 +203,9 @@ class Engine(ExprMixin, ExprMixin2, StmtMixin, LoopMixin, CallMixin, CompMixin, 
             # the function no longer has the loop(s) the sidecar annotates: the annotations are ignored and the obligations decide
             self.stale_loops.append((qual, len(self.loop_ordinals), stale))
         self.obligations = []
+        self.check_decorators(qual, fn)
+        self.check_signature(c, fn)          # (may adapt c.params: parameters added with a default)
         st = self.initial_state(c, mod)
-        self.check_signature(c, fn)
         for r in c.requires:
             st.assume(self.spec_eval(r, st))
         cover_ok = feasible(st.pc, 10000)
@@ -223,6 +258,18 @@ class Engine(ExprMixin, ExprMixin2, StmtMixin, LoopMixin, CallMixin, CompMixin, 
             extra(self, c, f, entry, j, raised)
         finally:
             f.env, f.status = saved
+
+    TRANSPARENT_DECORATORS = ("property", "staticmethod", "classmethod", "abstractmethod", "abc.abstractmethod", "overload", "typing.overload")
+
+    def check_decorators(self, qual, fn):
+        """a decorator other than the binding ones (property / setter, staticmethod, classmethod, abstractmethod, overload) replaces the function
+        by whatever the decorator returns (a memoising wrapper, a context-manager factory, ...): the body is then not the code that runs at
+        a call, and neither a contract on it nor executing it in place says what a call does"""
+        for d in getattr(fn, "decorator_list", []):
+            t = ast.unparse(d)
+            if t in self.TRANSPARENT_DECORATORS or t.endswith(".setter") or t.endswith(".getter"):
+                continue
+            raise Unsupported(f"{qual} is wrapped by the decorator @{t}: what a call does is the wrapper's behaviour, which is outside the verified subset")
 
     def check_signature(self, c, fn):
         names = [a.arg for a in fn.args.posonlyargs + fn.args.args]
@@ -352,8 +399,12 @@ class Engine(ExprMixin, ExprMixin2, StmtMixin, LoopMixin, CallMixin, CompMixin, 
                 opts = [ref == a[1] for a in allowed if a[0] == comp and a[1] is not None]
                 opts += [z3.Not(a[2](ref)) for a in allowed if a[0] == comp and a[1] is None and a[2] is not None]
                 goal = z3.Or(opts + [ref >= entry.alloc_ptr()])
-            self.obligations.append(Obligation(f"{c.qual}:frame:{comp}#path{j}", "frame", f.hyps(), goal, where=c.qual,
-                                               meta={"clause": f"modifies {c.modifies}", "component": comp, "trail": f.trail}))
+            meta = {"clause": f"modifies {c.modifies}", "component": comp, "trail": f.trail}
+            if comp in self.auto_globals:
+                # module state the sidecar does not know (introduced by the code under verification): whether writing it matters is decided
+                # by the property's replay, not by the frame alone
+                meta["weak"] = True
+            self.obligations.append(Obligation(f"{c.qual}:frame:{comp}#path{j}", "frame", f.hyps(), goal, where=c.qual, meta=meta))
 
     def footprint(self, text, f, entry):
         text = text.strip()
